@@ -48,8 +48,8 @@ RULE = ("cases = (routine, arguments, chunks specification). Complete part: aran
         "(routine, arguments, chunks).")
 ASSUMPTIONS = ["NumPy 2.x defines the expected values and dtype", "sync scheduler (threads for a tenth)"]
 BUDGET = {"quick": 90, "thorough": 560}
-FLOORS = {"quick": {"evaluations": 2900, "distinct_nontrivial": 1200,
-                    "counters": {"compared": 3000, "lazy_meta_checked": 3000, "blocks_checked": 250, "retstep_compared": 100},
+FLOORS = {"quick": {"evaluations": 2500, "distinct_nontrivial": 1050,
+                    "counters": {"compared": 2600, "lazy_meta_checked": 2600, "blocks_checked": 220, "retstep_compared": 90},
                     "sets": {"chunk_spec_kinds": 30}, "max_skipped_fraction": 0.15},
           "thorough": {"evaluations": 45000, "distinct_nontrivial": 18000,
                        "counters": {"compared": 46000, "lazy_meta_checked": 46000, "blocks_checked": 4000, "retstep_compared": 1600},
@@ -154,7 +154,7 @@ def cases(tier, seed):
         for c in range(1, n + 2):
             yield {"space": "exhaustive", "op": "tri", "N": n, "M": None, "k": 0, "dtype": None, "chunks": {"t": "int", "v": c}}
     # ---- random part --------------------------------------------------------------------------
-    n = 6000 if tier == "quick" else 100000
+    n = 5000 if tier == "quick" else 100000
     ops = ["arange"] * 4 + ["linspace"] * 4 + ["eye"] * 3 + ["diag", "diag", "diagonal", "diagonal", "indices", "indices",
            "meshgrid", "meshgrid", "fromfunction", "fromfunction", "tri", "tri", "wrap", "wrap", "wrap", "like", "like", "like"]
     for _ in range(n):
